@@ -779,7 +779,21 @@ func (x *Exec) applyGhostSets(st *St, c *Contract, env *CEnv) {
 		// all right-hand sides are evaluated before any update
 		vals := make([]*Term, len(c.GhostSets))
 		for i, gs := range c.GhostSets {
-			vals[i] = env.tr(gs.Expr).T
+			// a right-hand side that cannot be evaluated here (it names a local of the callee, or a local that does not exist
+			// on this return path) leaves the ghost variable unconstrained: only the postconditions speak about it
+			func() {
+				defer func() {
+					if r := recover(); r != nil {
+						if _, ok := r.(ctransErr); !ok {
+							panic(r)
+						}
+						if g, ok := x.W.GhostVars[gs.Var]; ok {
+							vals[i] = x.fresh(g.Key+".any", g.Sort)
+						}
+					}
+				}()
+				vals[i] = env.tr(gs.Expr).T
+			}()
 		}
 		for i, gs := range c.GhostSets {
 			g, ok := x.W.GhostVars[gs.Var]
